@@ -21,6 +21,8 @@ def file_text(w, kind, ports):
         pools['db1'] = simple_pool([['127.0.0.1', ports['b1'], 'primary'], ['127.0.0.1', ports['b4'], 'replica']], pool_size=2)
         pools['db1']['query_parser_enabled'] = True
         pools['db1']['plugins'] = {'table_access': {'enabled': True, 'tables': ['guarded']}}
+    elif kind == 'unreachable':
+        pools['db1'] = simple_pool([['127.0.0.1', ports['dead'], 'primary']], pool_size=2, user={'min_pool_size': 1})
     elif kind == 'B':
         pools['db1'] = simple_pool([['127.0.0.1', ports['b3'], 'primary']], pool_size=2)
     elif kind == 'semantic_error':
@@ -41,6 +43,7 @@ def run_scenario(item):
     with World('rl') as w:
         b = {n: w.backend(n) for n in ('b1', 'b2', 'b3', 'b4')}
         ports = {n: x.port for n, x in b.items()}
+        ports['dead'] = W.free_port()
         w.port = W.free_port()
         w.start(text=file_text(w, 'A', ports), port=w.port)
         clients = {}
@@ -245,7 +248,9 @@ def check_c14(prop, tier, seed):
                 cur = x['f']
             elif x['op'] == 'reload':
                 f.append('reload:%s:%s' % (cur, 'intx' if intx else 'idle'))
-                if cur in ('A', 'B', 'R', 'P', 'absent') and cur != eff:
+                if eff == 'unreachable' and cur in ('A', 'B', 'R', 'P'):
+                    f.append('reload_after_failed_build')
+                if cur in ('A', 'B', 'R', 'P', 'absent', 'unreachable') and cur != eff:
                     eff = cur
                     if held:
                         f.append('held_across_change')
@@ -280,6 +285,11 @@ def check_c14(prop, tier, seed):
     special = [s2 for k in keys if 'held_across_change' in k for s2 in byf[k]]
     rng.shuffle(special)
     chosen = special[:n // 6]
+    # ... and for a working reload after one whose pools could not be built, followed by a transaction
+    special2 = [s2 for k in keys if 'reload_after_failed_build' in k and any(y in k for y in ('txstart_after', 'probe:A', 'probe:B', 'probe:R', 'probe:P'))
+                for s2 in byf[k]]
+    rng.shuffle(special2)
+    chosen += [s2 for s2 in special2 if s2 not in chosen][:n // 8]
     picked = {json.dumps(s2) for s2 in chosen}
     for k in keys:
         byf[k] = [s2 for s2 in byf[k] if json.dumps(s2) not in picked]
@@ -325,7 +335,7 @@ def check_c14(prop, tier, seed):
     done = False
     for it, r in ok:
         idx = [i for i, x in enumerate(r['recs']) if x['ev'] == 'txstart' and x['landed'] == 'b1']
-        if idx:
+        if idx and not any(x['ev'] == 'write' and x['f'] == 'unreachable' for x in r['recs'][:idx[0]]):
             seg = [dict(x) for x in r['recs'][:idx[0] + 1]]
             seg[-1]['landed'] = 'b3'
             res2, info2 = tlc.validate_trace('Trace_Reload', 'Trace_Reload.cfg', seg)
